@@ -141,7 +141,7 @@ theorem getIn_fst {so : Spec.Opts} {b : Bool} {p : Value} {t : Bytes} {pv : Valu
   | str s => simp [Spec.getIn] at h
 
 theorem conGet_test_full {o : Opts} {e : Bool} {pc : Node} {key : Bytes} (s : Node)
-    (h : Inv e pc) (hc : isCon pc = true) (hk : key ≠ []) :
+    (h : Inv e pc) (hc : isCon pc = true) :
     match Spec.getIn (specOpts o) true (den pc) key with
     | .ok pv =>
       (∃ n, conGet o s pc key = .ok n ∧ Inv e n ∧ den n = pv.2 ∧
@@ -151,7 +151,7 @@ theorem conGet_test_full {o : Opts} {e : Bool} {pc : Node} {key : Bytes} (s : No
       (conGet o s pc key = .err .missing ∧ pv.2 = .null)
     | .fail _ => ∃ er, conGet o s pc key = .err er ∧ er ≠ .missing
     | .unspec => True := by
-  have hbase := conGet_refines_test (o := o) s h hc hk
+  have hbase := conGet_refines_test (o := o) (key := key) s h hc
   cases hg : Spec.getIn (specOpts o) true (den pc) key with
   | unspec => trivial
   | fail c => rw [hg] at hbase; exact hbase
@@ -163,7 +163,7 @@ theorem conGet_test_full {o : Opts} {e : Bool} {pc : Node} {key : Bytes} (s : No
       intro c hci hcd
       cases pc with
       | doc keys obj =>
-        rw [conGet_doc o s keys obj key hk] at hn
+        rw [conGet_doc o s keys obj key] at hn
         cases hl : lookupN key obj with
         | none => rw [hl] at hn; cases hn
         | some n' =>
@@ -173,7 +173,7 @@ theorem conGet_test_full {o : Opts} {e : Bool} {pc : Node} {key : Bytes} (s : No
           refine ⟨a, rfl, ?_⟩
           rw [putChild_doc, b, hcd, set_lookup_self _ _ _ (by rw [lookupN_denM, hl]; rfl), den_doc_inv h]
       | ary ns =>
-        have hget := conGet_ary o s ns key hk
+        have hget := conGet_ary o s ns key
         rw [den_ary] at hg
         simp only [Spec.getIn, denL_length, specOpts_neg] at hg
         cases hr : Spec.readIdx o.neg ns.length key with
@@ -255,10 +255,9 @@ def actTest (o : Opts) (ov : Option Cst) : Node → Node → Bytes → Outcome (
     | .ok val =>
       let (b, val') := equalTo val ov
       if b then
-        (if key = [] then .ok (con, ()) else
-          match val with
-          | .nil => .ok (con, ())
-          | _ => .ok (putChild o con key val', ()))
+        (match val with
+         | .nil => .ok (con, ())
+         | _ => .ok (putChild o con key val', ()))
       else .err .testFailed
 
 theorem opTest_eq_nonroot (o : Opts) (r : Root) (op : Op) (hp : op.path ≠ []) :
@@ -268,11 +267,11 @@ theorem opTest_eq_nonroot (o : Opts) (r : Root) (op : Op) (hp : op.path ≠ []) 
   rfl
 
 theorem actTest_ref (hEq : EqSpec) {o : Opts} {e : Bool} {ov : Option Cst} {key : Bytes}
-    (hov : ∀ c, ov = some c → c.valueOf.noDup = true) (hkey : key ≠ []) :
+    (hov : ∀ c, ov = some c → c.valueOf.noDup = true) :
     ActRef e key (actTest o ov) (testIn (specOpts o) ((ov.map Cst.valueOf).getD .null))
       (fun _ _ => True) := by
   intro s pc hp hc
-  have hfull := conGet_test_full (o := o) s hp hc hkey
+  have hfull := conGet_test_full (o := o) (key := key) s hp hc
   simp only [testIn]
   cases hg : Spec.getIn (specOpts o) true (den pc) key with
   | unspec => trivial
@@ -310,12 +309,12 @@ theorem actTest_ref (hEq : EqSpec) {o : Opts} {e : Bool} {ov : Option Cst} {key 
           subst h1
           obtain ⟨a, b, c⟩ := hput val' h2 (h3.trans hn2.symm)
           cases n with
-          | nil => exact ⟨pc, (), by simp [actTest, hn, hx, hkey], hp, hc, hfst.symm, trivial⟩
-          | raw c' => exact ⟨_, (), by simp [actTest, hn, hx, hkey], a, b, by rw [c, hfst], trivial⟩
-          | doc k' o' => exact ⟨_, (), by simp [actTest, hn, hx, hkey], a, b, by rw [c, hfst], trivial⟩
-          | ary ns => exact ⟨_, (), by simp [actTest, hn, hx, hkey], a, b, by rw [c, hfst], trivial⟩
-          | docNil => exact ⟨_, (), by simp [actTest, hn, hx, hkey], a, b, by rw [c, hfst], trivial⟩
-          | nilAry => exact ⟨_, (), by simp [actTest, hn, hx, hkey], a, b, by rw [c, hfst], trivial⟩
+          | nil => exact ⟨pc, (), by simp [actTest, hn, hx], hp, hc, hfst.symm, trivial⟩
+          | raw c' => exact ⟨_, (), by simp [actTest, hn, hx], a, b, by rw [c, hfst], trivial⟩
+          | doc k' o' => exact ⟨_, (), by simp [actTest, hn, hx], a, b, by rw [c, hfst], trivial⟩
+          | ary ns => exact ⟨_, (), by simp [actTest, hn, hx], a, b, by rw [c, hfst], trivial⟩
+          | docNil => exact ⟨_, (), by simp [actTest, hn, hx], a, b, by rw [c, hfst], trivial⟩
+          | nilAry => exact ⟨_, (), by simp [actTest, hn, hx], a, b, by rw [c, hfst], trivial⟩
     · have heq := equalTo_refines hEq (ov := ov) (Inv_nil e) hov
       simp only [den] at heq
       rw [hnull]
@@ -338,7 +337,7 @@ theorem actTest_ref (hEq : EqSpec) {o : Opts} {e : Bool} {ov : Option Cst} {key 
           rw [hx] at h1
           simp only at h1
           subst h1
-          exact ⟨pc, (), by simp [actTest, hmiss, hx, hkey], hp, hc, hfst.symm, trivial⟩
+          exact ⟨pc, (), by simp [actTest, hmiss, hx], hp, hc, hfst.symm, trivial⟩
 
 theorem opTest_refines (hEq : EqSpec) {o : Opts} {e : Bool} {r : Root} {op : Op} {sop : Spec.Op}
     (sz acc : Nat) (hr : InvRoot e r)
@@ -385,7 +384,7 @@ theorem opTest_refines (hEq : EqSpec) {o : Opts} {e : Bool} {r : Root} {op : Op}
           (Spec.atParent (specOpts o) (testIn (specOpts o) ((op.value.map Cst.valueOf).getD .null))
             (den r.con) (t :: ts))
           (withPath o r op.path (actTest o op.value)) :=
-        withPath_walkRef hr hp (by simp) (fun key _ hkey => actTest_ref hEq hov hkey)
+        withPath_walkRef hr hp (by simp) (fun key _ => actTest_ref hEq hov)
       have hl := liftWalk_refines (k := fun _ => .err .missing) acc (fun _ => ⟨_, rfl⟩) hw
       cases hA : ((Spec.atParent (specOpts o) (Spec.getIn (specOpts o) true) (den r.con) (t :: ts)).bind fun pv =>
           (Spec.testEq pv.2 ((op.value.map Cst.valueOf).getD .null)).bind fun _ =>
